@@ -1283,7 +1283,7 @@ fn run_ops_inner(settings: &SettingsDesc, ops: &[Op], faults_mode: bool, attribu
                             }
                             s.violate(
                                 "I9",
-                                format!("invalid-default-accepted-on-redelivery:{opkind}|{kind}:{where_}"),
+                                format!("invalid-default-accepted-on-redelivery:ReAdd({})|{kind}:{where_}", src.kind()),
                                 step,
                                 format!("{opkind}: the first delivery was refused, the identical re-delivery returned Ok although it carries the same invalid default"),
                                 "an invalid default is reported as an error when the schema is added (every time it is added)",
